@@ -621,6 +621,26 @@ func (r *mxRunner) snap() []string {
 		pls[si] = p
 		r.noteListed(p)
 		out = append(out, fmt.Sprintf("pl s=%d d=0 %s", si, r.fmtPlaylist(p)))
+		if r.variant != "ts" {
+			// the same playlist requested with a query that carries no delivery directive but characters that must
+			// not appear raw inside a quoted attribute value: it must still parse (C15: "every playlist a muxer
+			// serves") and every URI must carry the re-encoded query (C06)
+			if pq, _, _, _ := r.fetchPlaylist(si, "tok=\"q\"&z=<1>"); pq != nil {
+				for _, u := range mxAllURIs(pq) {
+					q := ""
+					if i := strings.IndexByte(u, '?'); i >= 0 {
+						q = u[i+1:]
+					}
+					if q != "tok=%22q%22&z=%3C1%3E" {
+						r.failf("C06 stream %d: URI %s of a playlist requested with ?tok=\"q\"&z=<1> carries query %q, expected the re-encoded tok=%%22q%%22&z=%%3C1%%3E", si, u, q)
+						break
+					}
+				}
+				if len(pq.segs) != len(p.segs) {
+					r.failf("C06 stream %d: the playlist requested with a plain query lists %d segments, without it %d", si, len(pq.segs), len(p.segs))
+				}
+			}
+		}
 		if r.variant == "ll" {
 			pd, _, code, _ := r.fetchPlaylist(si, "_HLS_skip=YES")
 			if pd == nil {
